@@ -180,6 +180,12 @@ def sc_assembly(V, P, cfg, chk=None):
         bcdiag = _maxentry(Ke, V.symbolic)
     Kref = ref_scatter(M, ndof, x, Ke, bc, bcdiag, const, V.symbolic)
     chk.arrays_eq("scatter", K, Kref, "scatter")
+    # the domain object handed to the module is shared with every other module of the model: it must keep its sizes
+    es = np.asarray(dom.element_size)
+    chk.true("domain.element_size-shape", tuple(es.shape) == (3,), "domain-unchanged")
+    if tuple(es.shape) == (3,):
+        for a_, (got_, want_) in enumerate(zip(es, siz)):
+            chk.eq("domain.element_size[%d]-unchanged" % a_, got_, want_, "domain-unchanged")
     if cfg.get("again"):
         # history on one module: the same assembly module evaluated for another design (iteration 2 of any optimisation)
         K1 = np.array(K, dtype=K.dtype)
@@ -370,6 +376,8 @@ def items(tier):
         add("general-%s-ndof1-const-csr" % tag, which="general", mesh=mesh, ndof=1, add_constant=True, csr=True)
         add("general-%s-ndof2-symelmat" % tag, which="general", mesh=mesh, ndof=2, symmetric_elmat=True,
             csr=True)
+        add("general-%s-ndof1-bc0" % tag, which="general", mesh=mesh, ndof=1, bc=[0])        # the set {0}
+        add("poisson-%s-bc0-csr" % tag, which="poisson", mesh=mesh, bc=[0], csr=True)
         add("general-%s-ndof1-bc1-again" % tag, which="general", mesh=mesh, ndof=1, bc=_bcsets(M, 1)["one"], again=True)
         add("general-%s-ndof2-const-again" % tag, which="general", mesh=mesh, ndof=2, add_constant=True, again=True)
         add("general-%s-ndof1-elmat-transposed-view" % tag, which="general", mesh=mesh, ndof=1, elmat_layout="transposed-view")
